@@ -59,13 +59,13 @@ package types
 // rlpHash selects the digest by version: keccak256 for 0 and 1 (argon2 untouched), argon2id with
 // 1, 16, 32 KiB for 2, 3, 4. The RLP encoding and the digest value are not modelled here.
 //@ func rlpHash
-//@   requires version <= 4
+//@   requires[C14] version <= 4
 //@   ensures[C14] @algo (version <= 1 ==> argon_mem == old(argon_mem)) && (version == 2 ==> argon_mem == 1) && (version == 3 ==> argon_mem == 16) && (version == 4 ==> argon_mem == 32)
 //@   assigns argon_time, argon_mem, argon_threads, argon_keylen, argon_saltlen, inferred
 
 // The block/header hash is computed with the header's own version.
 //@ func Header.Hash
-//@   requires h != nil && h.Version >= 1 && h.Version <= 4
+//@   requires[C14] h != nil && h.Version >= 1 && h.Version <= 4
 //@   ensures[C14] @algo (h.Version == 1 ==> argon_mem == old(argon_mem)) && (h.Version == 2 ==> argon_mem == 1) && (h.Version == 3 ==> argon_mem == 16) && (h.Version == 4 ==> argon_mem == 32)
 //@   assigns argon_time, argon_mem, argon_threads, argon_keylen, argon_saltlen, inferred
 //@   nopanic[C14]
@@ -74,7 +74,7 @@ package types
 // and keccak256 otherwise. Its value is an observer of the header object (axiom: the header's
 // fields are not written between the calls that use it).
 //@ func Header.HashNoNonce
-//@   requires h != nil
+//@   requires[C14] h != nil
 //@   ensures[C14] @algo (h.Version == 3 ==> argon_mem == 16) && (h.Version != 3 ==> argon_mem == old(argon_mem))
 //@   axiom result == hnn(h)
 //@   assigns argon_time, argon_mem, argon_threads, argon_keylen, argon_saltlen
